@@ -12,10 +12,13 @@ def check(tier, seed, only=None, variants=("mh_sha1", "mh_sha256"), pid="C05"):
             jobs += mh.build(v, os.path.join(runner.scratch(), v))
     except overlay.OverlayError as e:
         raise evidence.Undecided("extraction broke: %s" % e)
+    if pid == "C10":
+        from . import murmur
+        jobs += murmur.jobs(os.path.join(runner.scratch(), "murmur"))
     if tier == "quick":
         # every instantiation #includes the SAME template text: quick proves the stand-alone (base) and the
         # avx2 instantiation, thorough all five
-        keep = ("/base/", "/avx2/")
+        keep = ("/base/", "/avx2/", "murmur/")
         for j in jobs:
             if not any(k in j.name for k in keep):
                 rep.transferred.append({"function": j.name, "proved_instance": j.name.rsplit("/", 2)[0] + "/avx2/...",
@@ -47,7 +50,9 @@ def check(tier, seed, only=None, variants=("mh_sha1", "mh_sha256"), pid="C05"):
             rep.add_undecided("native mh check could not be built/run: %s" % e)
     else:
         rep.assumptions.append("ASSUMED: stitched block functions _mh_sha1_murmur3_x64_128_block_* = mh_sha1 block function || 64 murmur blocks per 1024 bytes, in order; "
-                               "_murmur3_x64_128_block/_tail = Appleby's MurmurHash3_x64_128 body and tail+finalisation (not yet under contract)")
+                               "_murmur3_x64_128_block/_tail are PROVED equal to Appleby's MurmurHash3_x64_128 body step / tail + finalisation (jobs murmur/*: "
+                               "body per block with the loop count bounded by 3 - the loop body is the same code for every block -, tail for every length with a "
+                               "substituting cut-point after the byte packing; unsigned 32-bit length)")
     rep.assumptions.append("ASSUMED: block functions _mh_shaN_block_{base,sse,avx,avx2,avx512} hash n*1024 bytes as 16 interleaved standard compressions (round-robin dealing of 32-bit words); only the tape (which bytes, in which order, with which padding) is proved here")
     rep.assumptions.append("ASSUMED: _sha1_for_mh_sha1 / sha256_for_mh_sha256 are the standard hash of the 320/512-byte segment-digest matrix")
     rep.assumptions.append("domain: total stream length < 2^32 bytes (the property's domain; beyond it `len + partial_block_len` wraps in 32 bits)")
